@@ -311,6 +311,20 @@ def run(ctx, res):
         res.ok(rid5, "recogniser-mapping", h.loc(), "(&recognizers[tk.into()], tk, flag) in order")
     elif okm:
         res.violation(rid5, "recogniser-order", "the expected tokens are re-ordered or filtered before they are tried", h.loc())
+    # lexical alternatives of different length shift heads at different offsets: the shifter must keep them apart
+    # (decided by C03-R2 on the shifter's keys, shared)
+    from . import c03, c07, report
+    rid6 = res.rule("C06-R6", "GLR: heads shifted over lexical alternatives of different length are not merged (frontier keyed by "
+                    "(state, position); shared with C03-R2)", floor=2)
+    sub = report.Result("C06", ctx.tier)
+    try:
+        c03.run(ctx, sub)
+        c07.adopt(res, rid6, sub, only=["C03-R2"])
+        for u in sub.undecided_list:
+            if u["rule"].startswith("C03-R2"):
+                res.undecided(rid6, u["what"], u.get("where"))
+    except mir.AnchorLost as e:
+        res.undecided(rid6, str(e))
     res.explanation = (
         "Decides the structure of lexical disambiguation: candidate set, stable descending sort and its key table (priority "
         "x 1000 + string length under most-specific), finish-flag tables, the lexer's stop table, the parser-side filters of "
